@@ -103,6 +103,6 @@ CHECKS["C13"] = {
     "rule": "case = generated header fields (hash types, flags, optional elements, 0..60 entries, sizes up to 2^64) + 0..3 field mutations + optional body bytes. Non-trivial = the library opened the header, the reference parsed it, and it has >= 2 index entries or at least one mutation. Distinct by choice-sequence hash.",
     "assumptions": ["reference parser is correct", "a header both accepted by the reference and refused by the library is not a violation (counted as over-strict-refusal)"],
     "runs": [
-        {"bin": "asan/C13", "cases": P(12000, 150000), "procs": P(8, 16), "size": 70, "shrink_budget": 300},
+        {"bin": "asan/C13", "cases": P(50000, 400000), "procs": P(8, 16), "size": 70, "shrink_budget": 300},
     ],
 }
